@@ -24,6 +24,7 @@ func init() {
 			ruleFreshMaps(r)
 			ruleGrouperSelection(r)
 			ruleSampleLabelSet(r)
+			ruleMapCopyWriteBack(r, []string{metricPkg, enginePkg}, 2)
 		},
 	})
 }
